@@ -1,6 +1,6 @@
 (* C09 — acknowledged changes survive power loss.  Statements only; proofs in
    theories/Crash_proofs.v, under the persistence model of Crash.v (see C08). *)
-From Whawty Require Import Bytes Record Store StoreTrace Crash Crash_proofs.
+From Whawty Require Import Bytes Record Store StoreTrace Crash Crash_proofs AckedDurable_proofs.
 Open Scope N_scope.
 
 (* on a disk whose base directory is quiescent every crash state shows
@@ -78,6 +78,32 @@ Proof. exact remove_events_durable. Qed.
 Print Assumptions C09_set_admin_events.
 
 (* the repaired defects: without the final fsync the acknowledged change can be lost *)
+(* ---- under every single injected I/O error ----
+   Whatever fault [ft : option fault] hits the operation: if it REPORTS SUCCESS, its trace is
+   the complete discipline (add / update) and every change of the base directory is followed
+   by an fsync of the base directory (all four).  For remove this is what the repair b74e4b4
+   established: before it the operation could not report failure at all. *)
+Theorem C09_acked_remove_durable : forall ft d u,
+  p_remove_user_res ft d u = ROk -> durability_ok (events (p_remove_user ft d u)) = true.
+Proof. exact acked_remove_durable. Qed.
+Theorem C09_acked_set_admin_durable : forall ft d u adm s,
+  p_set_admin ft d u adm = (ROk, s) -> durability_ok (events s) = true.
+Proof. exact acked_set_admin_durable. Qed.
+Theorem C09_acked_add_complete : forall kdf ft c d u pw adm o s,
+  p_add kdf ft c d u pw adm o = (ROk, s) ->
+  protocol_complete_ok (u ++ ext_of adm) true (events s) = true /\ durability_ok (events s) = true.
+Proof. exact acked_add_complete. Qed.
+Theorem C09_acked_update_complete : forall kdf ft c d u pw o s adm,
+  p_update kdf ft c d u pw o = (ROk, s) -> user_exists d u = ExYes adm ->
+  protocol_complete_ok (u ++ ext_of adm) false (events s) = true /\ durability_ok (events s) = true.
+Proof. exact acked_update_complete. Qed.
+Theorem C09_complete_implies_durable : forall f rv evs,
+  protocol_complete_ok f rv evs = true -> durability_ok evs = true.
+Proof. exact complete_durable. Qed.
+Print Assumptions C09_acked_remove_durable.
+Print Assumptions C09_acked_add_complete.
+Print Assumptions C09_acked_update_complete.
+
 Theorem C09_refuted_bare_rename :
   exists d0 c, base_quiescent d0 /\ vol_file d0 (str "u.user") = Some (str "rec") /\
     crash_of (exec_events d0 [ERename (LFile (str "u.user")) (LFile (str "u.admin"))]) c /\
